@@ -1,64 +1,33 @@
 ----------------------------- MODULE InputModel -----------------------------
 (***************************************************************************)
-(* Design model of the input tokenizer (C02): the loop of                  *)
-(* collectEventsFromInput - parsers tried in priority order, each          *)
-(* answering complete / partial / no, a fallback when nothing is partial   *)
-(* or the escape timer has expired - over a small byte alphabet, a key     *)
-(* table that contains a key of which the focus report is a proper prefix  *)
-(* (the rxvt situation), printable runes and the two focus reports.        *)
-(*                                                                         *)
-(* TLC enumerates every byte string up to MaxLen and every partition of it *)
-(* into reads (initial states) and checks                                  *)
-(*   ChunkIndependent  the events and the final buffer do not depend on    *)
-(*                     the partition,                                      *)
+(* Design model of the input tokenizer (C02).  The tokenizer itself is     *)
+(* Tokenizer.tla (the loop of collectEventsFromInput and its parsers);     *)
+(* here TLC builds every byte string up to MaxLen over a small alphabet    *)
+(* and every partition of it into reads with at most MaxCuts cuts, feeds   *)
+(* both the whole string and the partition, and checks                     *)
+(*   ChunkIndependent  tokens and final buffer do not depend on the reads, *)
 (*   Drained           after the expiry nothing is buffered,               *)
-(*   Progress          a decode never lengthens the buffer.                *)
-(* FocusGuard = FALSE is the loop as found (a focus report is accepted     *)
-(* although a key sequence is still partial): refuted.                     *)
+(*   Progress          a decode never lengthens the buffer,                *)
+(*   NoSwallow         every byte is attributed to exactly one token and   *)
+(*                     every token consumed a word of its own language     *)
+(*                     (a report never swallows bytes that are not its).   *)
+(* The key table holds a key of which the focus report is a proper prefix  *)
+(* (the rxvt situation).  ALPHA selects the alphabet: "focus" {ESC [ O a I}*)
+(* or "mouse" {ESC [ < ; M a} (long enough strings contain whole SGR and   *)
+(* X11 reports, with foreign bytes in every position).                     *)
+(* FocusGuard = FALSE and SgrStrict = FALSE are the loop as it was found:  *)
+(* TLC refutes ChunkIndependent resp. NoSwallow for them.                  *)
 (***************************************************************************)
-EXTENDS Integers, Sequences, FiniteSets, TLC
+EXTENDS Tokenizer, TLC
 
-CONSTANTS MaxLen, FocusGuard
+CONSTANTS MaxLen, MaxCuts, ALPHA, LEAD, FocusGuard, SgrStrict
 
-ESC == 27
-Alphabet == {ESC, 91, 79, 97, 73}                      \* ESC [ O a I
-Keys == { <<ESC, 91, 79, 97>>, <<ESC, 79, 97>>, <<ESC, 91, 97>> }   \* Ctrl-Up (rxvt), SS3 a, CSI a
-Focus == { <<ESC, 91, 73>>, <<ESC, 91, 79>> }
+Alphabet == IF ALPHA = "focus" THEN {27, 91, 79, 97, 73} ELSE {27, 91, 60, 59, 77, 97}
+L == [keys |-> { [seq |-> <<27, 91, 79, 97>>, key |-> 1, mod |-> 0],      \* Ctrl-Up (rxvt)
+                 [seq |-> <<27, 79, 97>>, key |-> 2, mod |-> 0],          \* SS3 a
+                 [seq |-> <<27, 91, 97>>, key |-> 3, mod |-> 0] },        \* CSI a
+      mouse |-> TRUE, clip |-> FALSE, ps |-> -1, pe |-> -2, guard |-> FocusGuard, strict |-> SgrStrict]
 
-IsPrefix(a, b) == Len(a) <= Len(b) /\ SubSeq(b, 1, Len(a)) = a
-Drop(s, n) == SubSeq(s, n + 1, Len(s))
-
-\* one pass of the loop: st = [buf, esc, out]; returns the state after as many tokens as can be taken
-RECURSIVE Collect(_, _)
-Collect(st, expire) ==
-    IF st.buf = <<>> THEN st
-    ELSE
-    LET b == st.buf
-        \* printable runes (everything but ESC here)
-        runeC == b[1] # ESC
-        keyC == {k \in Keys : IsPrefix(k, b)}
-        keyP == \E k \in Keys : IsPrefix(b, k) /\ b # k
-        focC == {f \in Focus : IsPrefix(f, b)}
-        focP == \E f \in Focus : IsPrefix(b, f) /\ b # f
-        focTried == ~FocusGuard \/ ~keyP \/ expire
-        partial == keyP \/ (focTried /\ focP /\ focC = {})
-    IN IF runeC THEN Collect([buf |-> Drop(b, 1), esc |-> FALSE, out |-> Append(st.out, <<"rune", b[1], st.esc>>)], expire)
-       ELSE IF keyC # {} THEN LET k == CHOOSE k \in keyC : TRUE IN
-            Collect([buf |-> Drop(b, Len(k)), esc |-> FALSE, out |-> Append(st.out, <<"key", k, st.esc>>)], expire)
-       ELSE IF focTried /\ focC # {} THEN LET f == CHOOSE f \in focC : TRUE IN
-            Collect([buf |-> Drop(b, Len(f)), esc |-> st.esc, out |-> Append(st.out, <<"focus", f, FALSE>>)], expire)
-       ELSE IF ~partial \/ expire THEN
-            \* fallback: a lone ESC is the Esc key, ESC followed by something is an Alt prefix
-            IF Len(b) = 1 THEN Collect([buf |-> <<>>, esc |-> FALSE, out |-> Append(st.out, <<"esc", ESC, FALSE>>)], expire)
-            ELSE Collect([buf |-> Drop(b, 1), esc |-> TRUE, out |-> st.out], expire)
-       ELSE st                                            \* wait for more input
-
-\* feed the reads one after the other, then let the timer expire
-RECURSIVE FeedAll(_, _)
-FeedAll(st, chunks) == IF chunks = <<>> THEN Collect(st, TRUE)
-                       ELSE FeedAll(Collect([st EXCEPT !.buf = @ \o chunks[1]], FALSE), Tail(chunks))
-
-Strings == UNION {[1..n -> Alphabet] : n \in 1..MaxLen}
 \* partitions of s: subsets of the cut positions 1..Len(s)-1
 RECURSIVE Cut(_, _, _)
 Cut(s, cuts, from) == IF from > Len(s) THEN <<>>
@@ -69,14 +38,20 @@ Cut(s, cuts, from) == IF from > Len(s) THEN <<>>
 
 VARIABLES s, cuts, done
 vars == <<s, cuts, done>>
-Empty == [buf |-> <<>>, esc |-> FALSE, out |-> <<>>]
-Init == s \in Strings /\ cuts \in SUBSET (1..(Len(s) - 1)) /\ done = FALSE
-Next == ~done /\ done' = TRUE /\ UNCHANGED <<s, cuts>>
+Init == s = <<>> /\ cuts = {} /\ done = FALSE
+Extend == /\ ~done /\ Len(s) < MaxLen
+          /\ \E c \in Alphabet : (s = <<>> /\ LEAD = "esc" => c = 27) /\ s' = Append(s, c)
+          /\ UNCHANGED <<cuts, done>>
+Decide == /\ ~done /\ s # <<>>
+          /\ \E cs \in SUBSET (1..(Len(s) - 1)) : Cardinality(cs) <= MaxCuts /\ cuts' = cs
+          /\ done' = TRUE /\ UNCHANGED s
+Next == Extend \/ Decide
 Spec == Init /\ [][Next]_vars
 
-Whole == FeedAll(Empty, <<s>>)
-Split == FeedAll(Empty, Cut(s, cuts, 1))
-ChunkIndependent == Split.out = Whole.out
-Drained == Split.buf = <<>> /\ Whole.buf = <<>>
-Progress == \A n \in 1..Len(s) : Len(Collect([Empty EXCEPT !.buf = SubSeq(s, 1, n)], FALSE).buf) <= n
+Whole == FeedAll(L, TEmpty, <<s>>)
+Split == FeedAll(L, TEmpty, Cut(s, cuts, 1))
+ChunkIndependent == done => Split.out = Whole.out
+Drained == done => Split.buf = <<>> /\ Whole.buf = <<>>
+Progress == done /\ cuts = {} => \A n \in 1..Len(s) : Len(Collect(L, [TEmpty EXCEPT !.buf = SubSeq(s, 1, n)], FALSE).buf) <= n
+NoSwallow == done => Attributed(L, Whole, s) /\ Attributed(L, Split, s)
 =============================================================================
